@@ -67,6 +67,9 @@ CHECKS['C12'] = dict(engine=SYMX, technique='bounded symbolic execution of the f
 CHECKS['C10'] = dict(engine=SYMX, technique='bounded symbolic execution of the real Grid mutators, writers and readers (own explorer, z3 decides every branch) against an independently stated version gate; replay',
    text='15 entry paths (constructor arguments, metadata and column-metadata stores/overwrites, column[name]={...}, append, insert, extend, setitem, +=) x 10 declared versions (none, 2.0, 3.0, 2.5, 3.0.0, 1.0, 4.0, 2.0.0, 2.0a, 3) x 12 value kinds are chosen by symbolic selectors: a 3.0-only value upgrades an unversioned grid, is accepted by a 3.0-rules version and refused with ValueError (grid unchanged) otherwise; all pairs of stores; the writers as last line of defence for data placed behind the grid\'s back; and the five decisions Grid / ZINC writer / JSON writer / ZINC reader / JSON reader agree for the named versions and for every version a[.b[.c]][a] with symbolic components a<=4, b<=3, c<=2.',
    note='Gate stated independently as "declared version later than 2.0"; values are concrete objects chosen by symbolic selectors; multi-item extend calls are not required to be atomic.', ref='5 C10')
+CHECKS['C13'] = dict(engine='E2-symx + deterministic scheduler', technique='schedules and histories as sequences of symbolic integers enumerated exhaustively by the explorer (z3 decides feasibility), each executed on the real code by a deterministic thread scheduler (sys.settrace line granularity); replay of the schedule',
+   text='2 (quick) / 3 (thorough) real threads each compile and evaluate a distinct filter with its own literals through the real Grid.filter; every thread is stopped at each source line of filter_function/_filter_function/_FnWrapper and the next thread to run is a symbolic integer: all interleavings with <=2 (quick) / <=3 preemptions are explored, also with a capacity-2 cache so that evictions and finalisers interleave with compilations. Histories: all sequences of 5-7 evaluations over 3-4 filters with a cache of 2-3 entries (through Grid.filter or previously obtained functions), and one concrete history of 1500 distinct filters around the real capacity with a hot filter and held functions. Every thread/step must return exactly its own filter\'s rows.',
+   note='Scheduling granularity is the source line of the compile step; lru_cache itself assumed thread safe; capacity reduced by re-creating the cache in the eviction scenarios.', ref='5 C13')
 NA_REASON = {}
 
 def main():
